@@ -63,6 +63,8 @@ type OpFact struct {
 
 var fset = token.NewFileSet()
 
+// further tables, one generator per file of this package (registered from init)
+
 func line(p token.Pos) int { return fset.Position(p).Line }
 
 func isCtorName(n string) (string, bool) {
@@ -487,11 +489,23 @@ func (a *analyzer) run() {
 			}
 			if a.exprEmits(obsArg) {
 				w := 1
-				// nested inside the Next-position callback of another observer, or inside a loop,
-				// and not serialised by waiting for each inner subscription: several live feeders
 				encl := a.par.enclosingFuncs(c)
-				nestedInCallback := len(encl) > 0 && encl[0] != ast.Node(a.subFn) && a.isNextCallback(encl[0])
-				if (nestedInCallback || a.par.insideLoop(c, a.subFn)) && !a.waitsNear(c) {
+				nested := len(encl) > 0 && encl[0] != ast.Node(a.subFn)
+				switch {
+				case nested && a.isTerminalCallback(encl[0]):
+					// subscribed from the Error/Complete-position callback of another observer: a
+					// successor that starts after that source has terminated, not a concurrent feeder
+					w = 0
+					if f.Feeders == 0 {
+						w = 1
+					}
+				case nested && a.isNextCallback(encl[0]) && a.waitsNear(c):
+					// subscribed from a Next callback that waits for it (ConcatAll): serialised inside
+					// the parent's callback
+					w = 0
+				case nested && a.isNextCallback(encl[0]):
+					w = 2 // one live inner subscription per outer value
+				case a.par.insideLoop(c, a.subFn) && !a.waitsNear(c):
 					w = 2
 				}
 				f.Feeders += w
@@ -571,16 +585,95 @@ func (a *analyzer) run() {
 		return true
 	})
 
-	// ---- blocking receives outside go bodies
-	ast.Inspect(subBody, func(n ast.Node) bool {
+	// ---- blocking receives outside go bodies (directly, or through a local closure called there)
+	chanVars := map[string]bool{}
+	ast.Inspect(a.decl, func(n ast.Node) bool {
+		if as, ok := n.(*ast.AssignStmt); ok && len(as.Lhs) == 1 && len(as.Rhs) == 1 {
+			if c, ok := as.Rhs[0].(*ast.CallExpr); ok && calleeName(c) == "make" && len(c.Args) > 0 {
+				if _, ok := c.Args[0].(*ast.ChanType); ok {
+					if id, ok := as.Lhs[0].(*ast.Ident); ok {
+						chanVars[id.Name] = true
+					}
+				}
+			}
+		}
+		return true
+	})
+	blocksHere := func(n ast.Node) bool {
 		switch x := n.(type) {
 		case *ast.UnaryExpr:
-			if x.Op == token.ARROW && !a.par.insideGo(x, a.subFn) {
-				f.RecvOutsideGo = true
-			}
+			return x.Op == token.ARROW
 		case *ast.SelectStmt:
-			if !a.par.insideGo(x, a.subFn) {
-				f.RecvOutsideGo = true
+			return true
+		case *ast.RangeStmt:
+			if id, ok := x.X.(*ast.Ident); ok && chanVars[id.Name] {
+				return true
+			}
+		}
+		return false
+	}
+	blocksFn := map[*ast.FuncLit]bool{}
+	for changed := true; changed; {
+		changed = false
+		for _, fl := range a.localFn {
+			if blocksFn[fl] {
+				continue
+			}
+			ast.Inspect(fl.Body, func(n ast.Node) bool {
+				if n == nil || blocksFn[fl] {
+					return false
+				}
+				if g, ok := n.(*ast.GoStmt); ok && g != nil {
+					return false
+				}
+				if blocksHere(n) {
+					blocksFn[fl] = true
+					changed = true
+					return false
+				}
+				if c, ok := n.(*ast.CallExpr); ok {
+					if id, ok := c.Fun.(*ast.Ident); ok {
+						if g, ok := a.localFn[id.Name]; ok && blocksFn[g] {
+							blocksFn[fl] = true
+							changed = true
+							return false
+						}
+					}
+				}
+				return true
+			})
+		}
+	}
+	ast.Inspect(subBody, func(n ast.Node) bool {
+		if n == nil {
+			return false
+		}
+		if a.par.insideGo(n, a.subFn) {
+			return true
+		}
+		if blocksHere(n) {
+			// inside a local closure only counts where that closure is called (below)
+			encl := a.par.enclosingFuncs(n)
+			if len(encl) > 0 {
+				if fl, ok := encl[0].(*ast.FuncLit); ok {
+					for _, g := range a.localFn {
+						if g == fl {
+							return true
+						}
+					}
+				}
+			}
+			f.RecvOutsideGo = true
+		}
+		if c, ok := n.(*ast.CallExpr); ok {
+			if id, ok := c.Fun.(*ast.Ident); ok {
+				if g, ok := a.localFn[id.Name]; ok && blocksFn[g] {
+					// called on the subscribing goroutine (not from inside another non-invoked literal)
+					encl := a.par.enclosingFuncs(c)
+					if len(encl) > 0 && encl[0] == ast.Node(a.subFn) {
+						f.RecvOutsideGo = true
+					}
+				}
 			}
 		}
 		return true
@@ -667,6 +760,26 @@ func (a *analyzer) isNextCallback(f ast.Node) bool {
 		return true
 	}
 	if (name == "NewObserverWithContext" || name == "NewObserver") && len(c.Args) > 0 && c.Args[0] == ast.Expr(fl) {
+		return true
+	}
+	return false
+}
+
+// is f the Error- or Complete-position callback argument of an observer constructor?
+func (a *analyzer) isTerminalCallback(f ast.Node) bool {
+	fl, ok := f.(*ast.FuncLit)
+	if !ok {
+		return false
+	}
+	c, ok := a.par[fl].(*ast.CallExpr)
+	if !ok {
+		return false
+	}
+	name := calleeName(c)
+	if name == "OnErrorWithContext" || name == "OnError" || name == "OnCompleteWithContext" || name == "OnComplete" {
+		return true
+	}
+	if (name == "NewObserverWithContext" || name == "NewObserver") && len(c.Args) == 3 && (c.Args[1] == ast.Expr(fl) || c.Args[2] == ast.Expr(fl)) {
 		return true
 	}
 	return false
@@ -865,7 +978,15 @@ func writeIfChanged(path, content string) {
 func main() {
 	repo := flag.String("repo", "/repo", "repository root")
 	out := flag.String("out", "", "directory for RoGen/*.lean")
+	opsOnly := flag.Bool("opgen", false, "print the translated operator machines (OpsGen.lean) to stdout and exit")
 	flag.Parse()
+	if *opsOnly {
+		if err := runOpgen(*repo, ""); err != nil {
+			fmt.Fprintln(os.Stderr, "opgen:", err)
+			os.Exit(1)
+		}
+		return
+	}
 	var facts []OpFact
 	files, _ := filepath.Glob(filepath.Join(*repo, "operator_*.go"))
 	sort.Strings(files)
@@ -905,10 +1026,28 @@ func main() {
 	sb.WriteString("]\n\nend RoGen.Catalogue\n")
 	if *out != "" {
 		os.MkdirAll(*out, 0o755)
+	}
+	for _, t := range extraTables {
+		t(*repo, *out)
+	}
+	if *out != "" {
 		writeIfChanged(filepath.Join(*out, "Catalogue.lean"), sb.String())
+		emitDelegation(*repo, *out) // delegation.go
+		emitPipe(*repo, *out)       // pipe.go
 		emitKernel(*repo, *out)
 		js, _ := json.MarshalIndent(facts, "", " ")
 		writeIfChanged(filepath.Join(*out, "catalogue.json"), string(js)+"\n")
+		if err := emitPlugins(*repo, *out); err != nil {
+			fmt.Fprintln(os.Stderr, "plugins table:", err)
+			os.Exit(1)
+		}
+		writeIfChanged(filepath.Join(*out, "ChanShape.lean"), chanShapeLean(chanShapes(*repo)))
+		// the operator translator (opgen.go): lean/RoGen/OpsGen.lean
+		if err := runOpgen(*repo, *out); err != nil {
+			fmt.Fprintln(os.Stderr, "opgen:", err)
+			os.Exit(1)
+		}
+		writeFaultFacts(*repo, *out)
 	} else {
 		js, _ := json.MarshalIndent(facts, "", " ")
 		fmt.Println(string(js))
